@@ -240,7 +240,7 @@ func TestC14(t *testing.T) {
 		return
 	}
 
-	r.Rapid(t, "histories", vf.N(3000, 300000), func(t *rapid.T) {
+	r.Rapid(t, "histories", vf.N(3000, 1500000), func(t *rapid.T) {
 		n := rapid.IntRange(2, 24).Draw(t, "steps")
 		var c caseC14
 		live := 0
